@@ -286,6 +286,10 @@ class Machine:
             self.max_in = max(self.max_in, k)
             return F(T("in", k), size * 8)
         ent = m.get(p.off)
+        if ent is None and p.obj in self.gbytes:
+            raw = self.gbytes[p.obj]
+            if p.off + size <= len(raw):
+                return I(int.from_bytes(raw[p.off:p.off + size], "little"), size * 8)
         if ent is None:
             for (a, b) in self.zero.get(p.obj, []):
                 if a <= p.off and p.off + size <= b and not any(a2 < p.off + size and a2 + e2[1] > p.off for a2, e2 in m.items()):
@@ -444,6 +448,17 @@ class Machine:
 
     def init_global(self, oid, init):
         init = re.sub(r", align \d+.*$", "", init).strip()
+        bm = re.search(r'c"((?:[^"\\]|\\[0-9A-Fa-f]{2})*)"', init)
+        if bm and init.count('c"') == 1 and re.match(r'^(<\{ )?\[\d+ x i8\]', init):
+            # constant data emitted as a byte string (e.g. a constant column (0,0,0,1)): keep the raw bytes, decode on load
+            raw, t, k = bytearray(), bm.group(1), 0
+            while k < len(t):
+                if t[k] == "\\":
+                    raw.append(int(t[k + 1:k + 3], 16)); k += 3
+                else:
+                    raw.append(ord(t[k])); k += 1
+            self.gbytes[oid] = bytes(raw)
+            return
         ty = type_prefix(init)
         rest = init[len(ty):].strip()
         try:
@@ -564,7 +579,7 @@ class Machine:
             if len(results) >= self.max_paths:
                 raise PathLimit(f"more than {self.max_paths} paths")
             self.decisions, self.dpos, self.pathcond = list(prefix), 0, []
-            self.mem, self.nobj, self.steps, self.max_in, self.zero = {"in": {}, "out": {}}, 0, 0, -1, {}
+            self.mem, self.nobj, self.steps, self.max_in, self.zero, self.gbytes = {"in": {}, "out": {}}, 0, 0, -1, {}, {}
             f = self.func(fname)
             if f is None:
                 raise NotEncoded("kernel not found in IR: " + fname)
@@ -1117,6 +1132,11 @@ class Machine:
         if s.obj == "in":
             for o in range(0, n, self.in_elem):
                 self.store_lane(P(d.obj, d.off + o), self.load_lane(P("in", s.off + o), self.in_elem, None), self.in_elem)
+            return
+        if s.obj in self.gbytes:
+            es = self.in_elem
+            for o in range(0, n, es):
+                self.store_lane(P(d.obj, d.off + o), self.load_lane(P(s.obj, s.off + o), es, None), es)
             return
         dm = self.mem[d.obj]
         for o in list(dm):
